@@ -3,7 +3,9 @@ A case = (cfg rounds); cfg = (creds tracks sdpkind urlkind keepalive routed); a 
 a script = reply kinds: item 0 answers the connect, item n+1 the n-th request, items after the
 accepted PLAY are play events.  Kinds: 0 ok, 1 401 Basic, 2 401 Digest, 3 4xx, 4 5xx, 5 malformed,
 6 silence until the time-out, 7 reset, 8 EOF, 9 401 with an unknown scheme."""
-from vlib import vparse
+import os, re, subprocess
+import vlib
+from vlib import vparse, vs
 
 OK, BASIC, DIGEST, E4, E5, MALF, SILENCE, RESET, EOF, AUTHX = range(10)
 KINDS = list(range(10))
@@ -130,11 +132,40 @@ def sig(c, e, o):
     return "pull-scenario"
 
 
+def race_step(ck):
+    """thorough tier: cameras that hang up right after accepting PLAY (no waiting for the harness), under the Go
+    race detector; a report whose two conflicting accesses are both in the pull client / pull factory is a failure
+    (reports inside other packages belong to other properties and are ignored here)"""
+    exe = vlib.vh_exe(ck.prop, race=True)
+    cases = [[cfg(creds=c, tracks=t, keepalive=k), [[0, [OK] * nsteps(t) + [e]]]]
+             for c in (0, 1) for t in (0, 1, 3) for k in (0, 1) for e in (RESET, EOF)]
+    lines = [vs(c) for c in cases]
+    st = {"stream": "race", "cases": len(lines), "oracle_failures": 0, "divergences": 0, "panics": 0}
+    ck.streams.append(st)
+    env = dict(os.environ, C20_UNGATED="1", GORACE="halt_on_error=0")
+    try:
+        p = subprocess.run([exe, "C20"], input=("\n".join(lines) + "\n").encode(), stdout=subprocess.PIPE,
+                           stderr=subprocess.PIPE, env=env, timeout=900)
+    except subprocess.TimeoutExpired:
+        ck.fail("race", "pull-race-run-hangs", lines[0])
+        return
+    ck.count(len(lines), "race")
+    err = p.stderr.decode("utf-8", "replace")
+    mine = ("service/rtsp.(*PullClient)", "service/rtsp.(*pullStreamFactory)")
+    for b in err.split("WARNING: DATA RACE")[1:]:
+        tops = re.findall(r"(?:Write|Read|Previous write|Previous read) at [^\n]*\n\s+(\S+)", b)
+        if len(tops) >= 2 and all(any(m in t for m in mine) for t in tops[:2]):
+            st["oracle_failures"] += 1
+            ck.fail("race", "pull-client-field-race", lines[0], observed=b[:1500],
+                    note="data race between the pull client's goroutine and the requester")
+            break
+
+
 def run(ck):
-    if not ck.prepare():
+    T = ck.thorough
+    if not ck.prepare(race=T):
         return ck.finish(rule="build failed")
     rng = ck.rng
-    T = ck.thorough
     ck.stream("steps", step_cases(), "C20_run", "C20", "C20_ok", nontrivial=nontrivial, sig=sig, timeout=1500)
     ck.stream("auth", auth_cases(rng, T), "C20_run", "C20", "C20_ok", nontrivial=nontrivial, sig=sig, timeout=1500)
     ck.stream("config", config_cases(), "C20_run", "C20", "C20_ok", nontrivial=nontrivial, sig=sig, timeout=1500)
@@ -151,6 +182,8 @@ def run(ck):
                 conc.append([n, tracks, [rng.choice([0, 0, 1, 3, 8]) for _ in range(n)]])
     ck.stream("concurrent", conc, "C20conc_run", "C20conc", "C20conc_ok", nontrivial=lambda c: c[0] >= 2,
               sig=lambda c, e, o: "pull-concurrent", timeout=900)
+    if T:
+        race_step(ck)
     return ck.finish(
         rule="scripts for a fake RTSP camera on 127.0.0.1 (reply kind per request: ok, 401 Basic, 401 Digest, 401 unknown scheme, "
              "4xx, 5xx, malformed, silence until the time-out, reset, EOF), requests through media.GetOrCreate with the route "
@@ -160,7 +193,8 @@ def run(ck):
              "afresh; (config) 0-2 tracks x URL path forms (empty, trailing slash) x keep-alive, unusable SDP bodies, unrouted "
              "path, scripts that end after 0..n steps; (play) ending/non-ending events at offsets of the play phase; (random) "
              "1-3 rounds of random scripts of length 0..16; (concurrent) 2-4 requesters released together against an all-ok camera, with "
-             "delays injected between swap and retire in media.Regist, observed after a packet on every connection. Compared per round: requester's answer, request sequence read by "
+             "delays injected between swap and retire in media.Regist, observed after a packet on every connection; (race, thorough) "
+             "cameras hanging up right after PLAY under the Go race detector, reports confined to pull client/factory. Compared per round: requester's answer, request sequence read by "
              "the camera (method, Authorization scheme verified against the route URL's credentials incl. the MD5 variant, "
              "Session echo), socket/registry/stats.RtspConns/goroutine state when the requester has its answer and after the "
              "script has ended, packets delivered to a consumer, consumer closed. non-trivial = a script that deviates from "
